@@ -19,12 +19,18 @@ func stmt(t string) Stmt { return Stmt{T: t, X: []int{}, C: [][]int{}, S: ""} }
 // description (B1 "Object Files (.obj)"): line oriented, '#' starts a
 // comment, items separated by blanks/tabs, the first item is the keyword.
 // It knows v, vt, vn, g, usemtl and f; every other keyword is an "x"
-// statement; a line of a known keyword that cannot be read is "bad".
+// statement; a line of a known keyword that cannot be read is "bad"; a text
+// with more statements than the projection budget ends in a "cut" statement.
 // Vertex references are v, v/vt, v//vn or v/vt/vn (absent = 0); they are NOT
 // resolved or range checked here, that is the format machine's job.
 func Tokenise(text []byte, enc Enc) []Stmt {
 	out := []Stmt{}
 	for _, raw := range strings.Split(string(text), "\n") {
+		if len(out) >= capStmts { // far more statements than the case can account for (iomodes.go): stop here
+			out = append(out, stmt("cut"))
+			capHit = true
+			break
+		}
 		line := strings.TrimRight(raw, "\r")
 		if i := strings.IndexByte(line, '#'); i >= 0 {
 			if strings.TrimSpace(line[:i]) == "" {
